@@ -21,7 +21,7 @@ P = {
                   "forms for colour-isomorphic inputs) is validated on every call and every generated pair of this run, not proved.",
              tech="Lean 4 proof (equivariance + bliss contract + serializer congruence) + model/code correspondence + relabelling probe"),
  "C02": dict(text="Proved about the model: if two molecules (domain MolAtoms) get the same string they are isomorphic as graphs coloured by "
-             "element, mass and radical (C02_injective, C02_distinct) — via reconstruction (C03), for oracles that merely return "
+             "element, mass and radical (C02_injective, C02_distinct; with C01, for an oracle meeting the contract, equality of strings is equivalent to such an isomorphism: C02_complete_invariant) — via reconstruction (C03), for oracles that merely return "
              "permutations. Probe: near-miss pairs and all collisions among generated strings vs an independent matcher.",
              note="needs only that igraph returns a permutation (checked per call).",
              tech="Lean 4 proof (injectivity via decode∘encode) + correspondence + near-miss pairs vs independent isomorphism matcher"),
@@ -77,7 +77,8 @@ P = {
  "C09": dict(text="Proved about writer and reader models, for every line length and any atom count: the written file has no line over 79 characters, "
              "and reading it back returns the same atoms in order with the same element, charge, radical, mass, coordinate tokens and the "
              "same bonds and bond types (C09_write_read; C09_write_read_any_listing for graphs whose nodes are listed in any order, e.g. "
-             "canonical graphs); plus the line-level lemmas. Probe: real write→read with length-targeted lines.",
+             "canonical graphs; C09_write_read_same_string; C09_string_molfile_string: string->graph->molfile->graph->string returns the "
+             "original string); plus the line-level lemmas. Probe: real write→read with length-targeted lines.",
              note="float formatting is opaque (coordinates are pre-formatted tokens); labels are 0..n-1, listed in any order.",
              tech="Lean 4 proof (file-level write/read for all lengths) + correspondence + length-targeted round-trip probe"),
  "C10": dict(text="The Lean reference reader (lexer + recogniser from the grammar, tables regenerated from the ATN) is compared with the real parser "
@@ -100,10 +101,11 @@ P = {
              "automorphisms, the final partition is equitable and classes determine the invariant code; rounds ≤ n+1. Probe: the three clauses "
              "on the real partition attribute.",
              note="", tech="Lean 4 proof (equivariance, equitability) + correspondence + partition probe"),
- "C14": dict(text="PARTIAL. Lean carries order-obliviousness of every sorted sequence and of the serializer as a whole (the hash-seed quantifier for "
-             "the modelled code), value semantics, and an abstract lazily-filled cache theorem (every interleaving and history). Thread "
+ "C14": dict(text="PARTIAL. Lean carries order-obliviousness of every sorted sequence and of the serializer, the canonical graph and the whole pipeline "
+             "(C14_pipeline_listing_oblivious: the hash-seed / insertion-history quantifier for the modelled code), value semantics, and an abstract lazily-filled cache theorem (every interleaving and history). Thread "
              "switching inside the ANTLR runtime/networkx/igraph cannot be exhibited by the model and is sampled: subprocesses under several "
-             "PYTHONHASHSEED values and call orders, 8 threads with a 1 microsecond switch interval.",
+             "PYTHONHASHSEED values and call orders, 8 threads with a 1 microsecond switch interval; the caller scribbles on every result "
+             "and every operation runs twice per process, so shared or cached mutable results show.",
              note="CPython scheduling is outside every theorem.",
              tech="Lean 4 proof (order-obliviousness, cache model) + multi-process/multi-thread differential"),
  "C15": dict(text="PARTIAL. Proved about the model for graphs of every size and shape: the pipeline returns a string and the parser accepts it; the "
